@@ -11,6 +11,7 @@
 (*            "builds":{name:{"status","main","fns":[index into lib]}},    *)
 (*            "obs":{"wasm":{out,end},"ts":{out,end}}}   (what the two     *)
 (*            back ends printed for the raw build; may be empty)           *)
+(*   NROWS   number of lines of TRACE (for the completeness check)          *)
 (*   BUDGET  statements the reference run may execute (a row's own         *)
 (*           "budget" field takes precedence)                              *)
 (*   CHUNKS  the builds of a program are judged in this many groups        *)
@@ -44,8 +45,10 @@ EXTENDS MIR, Json, IOUtils
 
 CONSTANT MaxDepth
 
-Rec == ndJsonDeserialize(IOEnv.TRACE)
-N == Len(Rec)
+\* An operator with a parameter: TLC evaluates every constant definition once per worker before it
+\* starts, which would parse the trace that many times; this is evaluated by Init only.
+Trace(file) == ndJsonDeserialize(file)
+N == atoi(IOEnv.NROWS)
 Budget == atoi(IOEnv.BUDGET)
 Chunks == atoi(IOEnv.CHUNKS)
 Profile == IOEnv.PROFILE = "1"
@@ -126,16 +129,23 @@ Judge(r, c) ==
                        !.wasm = IF c = 1 THEN Agrees(r, "wasm", ref) ELSE "none",
                        !.ts = IF c = 1 THEN Agrees(r, "ts", ref) ELSE "none"]
 
-VARIABLES l, c, res
+\* The trace is read by the single initial state and handed out to one state per (program, group): the
+\* programs travel in the state (variable row), so no worker ever parses the trace again.
+VARIABLES l, c, row, res
+Loading == [id |-> -3, verdict |-> "loading"]
 Pending == [id |-> -1, verdict |-> "pending"]
-Init == l \in 1..N /\ c \in 1..Chunks /\ res = Pending
+Done == [id |-> -2]
+Init == l = 0 /\ c = 0 /\ row = Trace(IOEnv.TRACE) /\ res = Loading
 Next ==
-  /\ res.verdict = "pending"
-  /\ LET j == Judge(Rec[l], c) IN res' = j /\ PrintT(<<"RESULT", ToJson(j)>>)
-  /\ UNCHANGED <<l, c>>
-Spec == Init /\ [][Next]_<<l, c, res>>
+  \/ /\ res.verdict = "loading"
+     /\ \E i \in 1..Len(row), k \in 1..Chunks : l' = i /\ c' = k /\ row' = row[i] /\ res' = Pending
+  \/ /\ res.verdict = "pending"
+     /\ LET j == Judge(row, c) IN res' = j /\ PrintT(<<"RESULT", ToJson(j)>>)
+     /\ row' = Done
+     /\ UNCHANGED <<l, c>>
+Spec == Init /\ [][Next]_<<l, c, row, res>>
 
 \* C02 at the level of the IR: no optimised build's MIR means something else than the raw MIR
 C02 == res.verdict # "violation"
-AllJudged == TLCGet("stats").distinct = 2 * N * Chunks
+AllJudged == TLCGet("stats").distinct = 1 + 2 * N * Chunks
 =============================================================================
